@@ -44,7 +44,7 @@ C[PP + '_serialize_annotation_start'] = dict(
 
 # the part after the residues: '-' + C-terminal modifications, '/' + charge, adducts -- each only when present (a charge of 0 is not written)
 _CT = "('-' + ISER(some(annotation._cterm_mods), '[]', include_plus, len(items(some(annotation._cterm_mods)))) if annotation._cterm_mods else '')"
-_CH = "(f'/{some(annotation._charge)}' if annotation._charge else '')"
+_CH = "(f'/{annotation._charge}' if annotation._charge else '')"
 _AD = "(ISER(some(annotation._charge_adducts), '[]', include_plus, len(items(some(annotation._charge_adducts)))) if annotation._charge_adducts else '')"
 C[PP + '_serialize_annotation_end'] = dict(
     params=dict(annotation='Annotation', include_plus='bool'), returns='str', pure=True, locals=dict(comps='List[str]'), raises={},
@@ -52,9 +52,42 @@ C[PP + '_serialize_annotation_end'] = dict(
     invariants={0: [('so-far', "SJ(comps, len(comps)) == '-' + ISER(some(annotation._cterm_mods), '[]', include_plus, _k0)")],
                 1: [('so-far', "SJ(comps, len(comps)) == " + _CT + ' + ' + _CH + " + ISER(some(annotation._charge_adducts), '[]', include_plus, _k1)")]},
 )
+# the residues: before residue i the brackets of the intervals starting / ending there, then the residue, then its modifications; after the
+# last residue the closing brackets of the intervals ending at the end
+MACROS['opent'] = (['iv', 'i'], "(('(' + ('?' if iv.ambiguous else '')) if iv.start == i else '')")
+MACROS['closet'] = (['iv', 'i', 'plus'], "((')' + (ISER(some(iv.mods), '[]', plus, len(items(some(iv.mods)))) if iv.mods else '')) if iv.end == i else '')")
+FUNCS['IVT'] = (['List[Interval]', 'int', 'bool', 'int'], 'str')     # text the first k intervals contribute in front of residue i
+FUNCS['IVC'] = (['List[Interval]', 'int', 'bool', 'int'], 'str')     # closing text of the first k intervals at position i (the end)
+FUNCS['MID'] = (['Annotation', 'bool', 'int'], 'str')                # text of the first k residues
+AXIOMS += [
+    ('IVT-0', "forall(lambda L=List[Interval], i=int, plus=bool: IVT(L, i, plus, 0) == '')"),
+    ('IVT-step', 'forall(lambda L=List[Interval], i=int, plus=bool, k=int: implies(k >= 0, IVT(L, i, plus, k + 1) == IVT(L, i, plus, k) + opent(L[k], i) + closet(L[k], i, plus)))'),
+    ('IVC-0', "forall(lambda L=List[Interval], i=int, plus=bool: IVC(L, i, plus, 0) == '')"),
+    ('IVC-step', 'forall(lambda L=List[Interval], i=int, plus=bool, k=int: implies(k >= 0, IVC(L, i, plus, k + 1) == IVC(L, i, plus, k) + closet(L[k], i, plus)))'),
+    ('MID-0', "forall(lambda x=Annotation, plus=bool: MID(x, plus, 0) == '')"),
+    ('MID-step', "forall(lambda x=Annotation, plus=bool, k=int: implies(k >= 0, MID(x, plus, k + 1) == MID(x, plus, k) + "
+                 "(IVT(some(x._intervals), k, plus, len(some(x._intervals))) if x._intervals else '') + x._sequence[k] + "
+                 "(ISER(some(x._internal_mods)[k], '[]', plus, len(items(some(x._internal_mods)[k]))) if (x._internal_mods and (k in some(x._internal_mods))) else '')))"),
+]
+_IVS = 'some(annotation._intervals)'
+_M0 = 'MID(annotation, include_plus, _k0)'
+_N = 'len(annotation._sequence)'
 C[PP + '_serialize_annotation_middle'] = dict(
-    params=dict(annotation='Annotation', include_plus='bool'), returns='str', pure=True, trusted=True,
-    bounded_by='residues with their modifications and interval brackets: round trip checked by bounded/C01.py', ensures=[])
+    params=dict(annotation='Annotation', include_plus='bool'), returns='str', pure=True, locals=dict(comps='List[str]'), raises={},
+    ensures=[('residues-with-their-brackets-and-modifications-then-the-closing-brackets',
+              'result == MID(annotation, include_plus, ' + _N + ') + (IVC(' + _IVS + ', ' + _N + ', include_plus, len(' + _IVS + ")) if annotation._intervals else '')")],
+    invariants={
+        0: [('residues-so-far', 'SJ(comps, len(comps)) == ' + _M0)],
+        1: [('brackets-so-far', 'SJ(comps, len(comps)) == ' + _M0 + ' + IVT(' + _IVS + ', i, include_plus, _k1)'), ('i-is-the-counter', 'i == _k0')],
+        2: [('closing-modifications-so-far', 'SJ(comps, len(comps)) == ' + _M0 + ' + IVT(' + _IVS + ", i, include_plus, _k1) + opent(interval, i) + ')' + "
+             "ISER(some(interval.mods), '[]', include_plus, _k2)"), ('i-is-the-counter', 'i == _k0')],
+        3: [('residue-modifications-so-far', 'SJ(comps, len(comps)) == ' + _M0 + ' + (IVT(' + _IVS + ', i, include_plus, len(' + _IVS + ")) if annotation._intervals else '') + aa + "
+             "ISER(some(annotation._internal_mods)[i], '[]', include_plus, _k3)"), ('i-is-the-counter', 'i == _k0')],
+        4: [('closing-brackets-so-far', 'SJ(comps, len(comps)) == MID(annotation, include_plus, ' + _N + ') + IVC(' + _IVS + ', i, include_plus, _k4)')],
+        5: [('closing-modifications-so-far', 'SJ(comps, len(comps)) == MID(annotation, include_plus, ' + _N + ') + IVC(' + _IVS + ", i, include_plus, _k4) + ')' + "
+             "ISER(some(interval.mods), '[]', include_plus, _k5)")],
+    },
+)
 C[PP + '_serialize_annotation'] = dict(
     params=dict(annotation='Annotation', include_plus='bool'), returns='str', pure=True, raises={},
     ensures=[('start-middle-end', 'result == _serialize_annotation_start(annotation, include_plus) + _serialize_annotation_middle(annotation, include_plus) + '
